@@ -47,6 +47,7 @@ def dispatch (j : Json) : Except String Json := do
   | "coords" => opCoords j
   | "catalogue" => opCatalogue j
   | "minor_build" => opMinorBuild j
+  | "major_spec" => opMajorSpec j
   | "planted_major" => opPlantedMajor j
   | "planted_minor" => opPlantedMinor j
   | "minor_readout" => opMinorReadout j
